@@ -5,6 +5,7 @@
 package verifhook
 
 import (
+	"context"
 	"fmt"
 	"sort"
 	"sync"
@@ -162,3 +163,68 @@ func TimeUntil(t time.Time) time.Duration { return t.Sub(TimeNow()) }
 
 // Template is the template-coverage probe.
 func Template(name string) { mu.Lock(); Templates[name]++; mu.Unlock() }
+
+// ---- timers ------------------------------------------------------------------------------------------
+// Stall simulates a process that is frozen or starved of CPU at the worst moment: every timer, sleep or
+// deadline the generator sets has already expired when it is consulted, so it wins any race against work
+// still in progress. With Stall off, timers are the real ones (which real work practically always beats).
+
+var Stall bool
+
+func TimeAfter(d time.Duration) <-chan time.Time {
+	if Stall {
+		c := make(chan time.Time, 1)
+		c <- TimeNow().Add(d)
+		return c
+	}
+	return time.After(d)
+}
+
+func TimeTick(d time.Duration) <-chan time.Time {
+	if Stall {
+		return time.Tick(time.Nanosecond)
+	}
+	return time.Tick(d)
+}
+
+func TimeNewTimer(d time.Duration) *time.Timer {
+	if Stall {
+		return time.NewTimer(0)
+	}
+	return time.NewTimer(d)
+}
+
+func TimeNewTicker(d time.Duration) *time.Ticker {
+	if Stall {
+		return time.NewTicker(time.Nanosecond)
+	}
+	return time.NewTicker(d)
+}
+
+func TimeAfterFunc(d time.Duration, f func()) *time.Timer {
+	if Stall {
+		return time.AfterFunc(0, f)
+	}
+	return time.AfterFunc(d, f)
+}
+
+// TimeSleep advances the simulated clock instead of sleeping.
+func TimeSleep(d time.Duration) {
+	mu.Lock()
+	Clock = Clock.Add(d)
+	mu.Unlock()
+}
+
+func CtxWithTimeout(parent context.Context, d time.Duration) (context.Context, context.CancelFunc) {
+	if Stall {
+		return context.WithTimeout(parent, 0)
+	}
+	return context.WithTimeout(parent, d)
+}
+
+func CtxWithDeadline(parent context.Context, t time.Time) (context.Context, context.CancelFunc) {
+	if Stall {
+		return context.WithDeadline(parent, time.Unix(0, 0))
+	}
+	return context.WithDeadline(parent, t)
+}
